@@ -641,11 +641,45 @@ do_configure(void)
     }
 }
 
+// "vcam3" / "vstore1" -> 3 / 1; anything else -> -1
+static int
+dev_index(const struct DeviceIdentifier* id, const char* prefix)
+{
+    size_t n = strlen(prefix);
+    char nm[sizeof id->name + 1];
+    memcpy(nm, id->name, sizeof id->name);
+    nm[sizeof id->name] = 0;
+    if (strncmp(nm, prefix, n) || nm[n] < '0' || nm[n] > '9')
+        return -1;
+    return atoi(nm + n);
+}
+// the part of a configuration that acquire_get_configuration reads back from the runtime itself (not from a device)
+static int
+conf_json(char* b, size_t cap, const struct AcquireProperties* p)
+{
+    int n = snprintf(b, cap, "[");
+    for (int s = 0; s < MAXS; s++) {
+        const struct aq_properties_video_s* v = &p->video[s];
+        int on = v->camera.identifier.kind == DeviceKind_Camera && v->storage.identifier.kind == DeviceKind_Storage;
+        long long m = v->max_frame_count > 0x3fffffffULL ? -1 : (long long)v->max_frame_count;
+        n += snprintf(b + n, cap - (size_t)n, "%s{\"on\":%d,\"cam\":%d,\"sto\":%d,\"mfc\":%lld,\"avg\":%ld}", s ? "," : "", on,
+                      dev_index(&v->camera.identifier, "vcam"), dev_index(&v->storage.identifier, "vstore"), m,
+                      (long)(v->frame_average_count > 0x3fffffffU ? 0x3fffffff : v->frame_average_count));
+    }
+    n += snprintf(b + n, cap - (size_t)n, "]");
+    return n;
+}
+
 static void
 api(const char* op)
 {
     pending_api = op;
-    ev("{\"e\":\"Api\",\"op\":\"%s\",\"ph\":\"call\"}", op);
+    if (!strcmp(op, "configure")) {
+        char cj[512];
+        conf_json(cj, sizeof cj, &props);
+        ev("{\"e\":\"Api\",\"op\":\"%s\",\"ph\":\"call\",\"req\":%s}", op, cj);
+    } else
+        ev("{\"e\":\"Api\",\"op\":\"%s\",\"ph\":\"call\"}", op);
     int rc = 0;
     if (!strcmp(op, "start")) {
         epoch++;
@@ -784,9 +818,15 @@ run_prog(void)
             pending_api = "query";
             ev("{\"e\":\"Api\",\"op\":\"query\",\"ph\":\"call\"}");
             int rc = (int)acquire_get_shape(rt, (uint32_t)s, &shp);
-            rc |= (int)acquire_get_configuration(rt, &rb) << 1;
+            int rcc = (int)acquire_get_configuration(rt, &rb);
+            rc |= rcc << 1;
             rc |= (int)acquire_get_configuration_metadata(rt, &md) << 2;
             (void)acquire_bytes_waiting_to_be_written_to_disk(rt, (uint32_t)s);
+            {
+                char cj[512];
+                conf_json(cj, sizeof cj, &rb);
+                ev("{\"e\":\"Query\",\"s\":%d,\"rcs\":%d,\"rcc\":%d,\"st\":%d,\"rb\":%s}", s, rc & 1, rcc, (int)acquire_get_state(rt), cj);
+            }
             ev("{\"e\":\"Api\",\"op\":\"query\",\"ph\":\"ret\",\"rc\":%d,\"st\":%d}", rc, (int)acquire_get_state(rt));
             pending_api = "";
         } else if (!strcmp(op, "mark")) {
